@@ -100,7 +100,7 @@ Definition sort_m (l : list value) (lower rev_order : bool) : bres :=
 Open Scope Z_scope.
 Definition civil_from_days (z0 : Z) : Z * Z * Z :=
   let z := z0 + 719468 in
-  let era := (if 0 <=? z then z else z - 146096) / 146097 in
+  let era := z / 146097 in          (* Z.div floors *)
   let doe := z - era * 146097 in
   let yoe := (doe - doe / 1460 + doe / 36524 - doe / 146096) / 365 in
   let y := yoe + era * 400 in
